@@ -65,6 +65,24 @@ Theorem C14_reg_coherent_history : forall defs blob be ops,
 Proof. exact reg_history. Qed.
 Print Assumptions C14_reg_coherent_history.
 
+(** a derived attribute read by key, through a reference or at an iterator
+    position is the same read — the view of the blob as it is now, never a
+    cached number — and a write through a reference is the write by key *)
+Theorem C14_derived_any_access_path : forall a defs i d r s,
+  defs_ok defs -> rinv defs s ->
+  nth_error defs i = Some d -> nth_error (regs s) i = Some r ->
+  reg_get_via a defs i s = reg_get_via ByKey defs i s /\
+  (forall v, reg_set_via a defs i v s = reg_set_via ByKey defs i v s) /\
+  let '(st, v, _) := reg_get_via a defs i s in
+  if g_isset r
+  then match spec_view d s with
+       | Some x => st = KDUMP_OK /\ v = x
+       | None => st <> KDUMP_OK
+       end
+  else st <> KDUMP_OK.
+Proof. exact derived_any_access_path. Qed.
+Print Assumptions C14_derived_any_access_path.
+
 (** a write into the blob through a pinned pointer is visible through the register *)
 Theorem C14_blob_write_visible : forall defs off bs i d r s,
   defs_ok defs -> rinv defs s ->
